@@ -1,6 +1,7 @@
 package main
 
 import (
+	"bytes"
 	"crypto/sha1"
 	"encoding/json"
 	"fmt"
@@ -166,6 +167,8 @@ type c18Recorder struct {
 	mu    sync.Mutex
 	ops   []c18Op
 	torn  []string
+	// partialChecks: one-type documents stored and the other type asked for
+	partialChecks int
 }
 
 // tick stamps a call or return from the one logical clock. In raw mode (see
@@ -320,6 +323,9 @@ func c18FeeQuoteHistory(c *mon.Ctx, h *c18Hist) {
 	fqs := bt.NewFeeQuotes("m0")
 	fqs.AddMinerWithDefault("m1")
 	free := []*bt.FeeQuote{bt.NewFeeQuote(), bt.NewFeeQuote()}
+	// a quote that only ever receives documents naming the standard fee alone: once such a document
+	// has been stored, no data fee is there to be read (nobody stores one)
+	partial := bt.NewFeeQuote()
 	expBase := int64(1_000_000_000)
 	var init []c18Op
 	initExp := map[string]int64{}
@@ -357,7 +363,7 @@ func c18FeeQuoteHistory(c *mon.Ctx, h *c18Hist) {
 			var owned *bt.FeeQuote
 			for k := 0; k < h.OpsEach; k++ {
 				yield(r)
-				op := r.Intn(16)
+				op := r.Intn(17)
 				t := prng.Pick(r, types)
 				switch op {
 				case 0, 1: // FeeQuote.Fee on a free quote
@@ -459,6 +465,22 @@ func c18FeeQuoteHistory(c *mon.Ctx, h *c18Hist) {
 					if err == nil {
 						rec.add(c18Op{proc: g, kind: "FeeQuote.UnmarshalJSON", key: fmt.Sprintf("fee:free%d:%s", i, bt.FeeTypeStandard), write: true, val: a, call: call, ret: ret},
 							c18Op{proc: g, kind: "FeeQuote.UnmarshalJSON", key: fmt.Sprintf("fee:free%d:%s", i, bt.FeeTypeData), write: true, val: b2, call: call, ret: ret})
+					}
+				case 16: // a document with one fee type only, then the other type is asked for
+					x := newID()
+					doc, _ := json.Marshal(map[bt.FeeType]*bt.Fee{bt.FeeTypeStandard: mkFee(bt.FeeTypeStandard, x)})
+					if err := json.Unmarshal(doc, partial); err == nil {
+						f, ferr := partial.Fee(bt.FeeTypeData)
+						b, _ := json.Marshal(partial)
+						rec.mu.Lock()
+						rec.partialChecks++
+						if ferr == nil {
+							rec.torn = append(rec.torn, fmt.Sprintf("FeeQuote.Fee(data) returned %+v from a quote into which only documents without a data fee were ever unmarshalled: a value no writer stored", *f))
+						}
+						if bytes.Contains(b, []byte(`"data"`)) {
+							rec.torn = append(rec.torn, fmt.Sprintf("json.Marshal(FeeQuote) shows a data fee on a quote into which only documents without one were ever unmarshalled: %s", b))
+						}
+						rec.mu.Unlock()
 					}
 				case 10, 11: // FeeQuotes.Fee
 					m := prng.Pick(r, []string{"m0", "m1", "m2", "m3", "m4", "m4"})
